@@ -38,7 +38,7 @@ def jobs(mode: str, tier: str, steps, trees=(0, 1, 2, 3)) -> List[Dict]:
             if mode == "C13" and fn in ("segment_step", "deep_step"):
                 for wide in (14, 17) + ((25,) if tier == "thorough" else ()):
                     out.append({"fn": fn, "module": "vf.harness.val_harness", "globals": {"MODE": mode, "FIXOWN": -1, "FIXSEG": -1, "FIXN": -1, "WIDE": wide}, "timeout": 600, "bound": f"wide node: {wide} children x own status x parent x flag x yields"})
-    ninp = 4 if tier == "thorough" else (1 if mode in ("C14", "C16") else 2)
+    ninp = (2 if mode in ("C14", "C16") else 4) if tier == "thorough" else (1 if mode in ("C14", "C16") else 2)
     if tier != "thorough" and mode == "C14":
         trees = tuple(t for t in trees if t in (0, 1))
     for t in trees:
